@@ -51,11 +51,10 @@ def _unwrap_check_and_cast(method):
             return condition
 
         def _check_x(x):
-            x = arraylike_to_array(x)
-            if not jnp.issubdtype(x.dtype, jnp.inexact):
-                # Integer inputs are promoted (as in the distribution methods), otherwise
-                # results can be truncated to the input dtype (e.g. x.at[idxs].set(y)).
-                x = x.astype(float)
+            # Cast to the default float dtype (as in the distribution methods), otherwise
+            # results can be truncated to the input dtype (e.g. x.at[idxs].set(y)), or
+            # rejected as a scan carry of a different dtype than the result (Scan).
+            x = arraylike_to_array(x, dtype=float)
             if x.shape != bijection.shape:
                 raise ValueError(
                     f"Expected input shape {bijection.shape}; got {x.shape}"
